@@ -28,3 +28,8 @@ def cfg_defines(cfg):
     for k, v in cfg.get('facts', {}).items():
         d.append('-DFACT_%s=%s' % (k, v))
     return d
+
+TIERS = {
+    'quick': ['main', 'tmove'],
+    'thorough': ['main', 'tmove'],
+}
